@@ -155,6 +155,27 @@ def _noncanonical_zerocode(body: bytes, rng):
     return bytes(out)
 
 
+def _ref_zero_code(body: bytes) -> bytes:
+    """the canonical zero-coding, written out independently of the library: every maximal run of n zeros becomes
+    (00 FF) * (n // 255) followed by 00 (n % 255) when the remainder is non-zero; everything else is copied"""
+    out = bytearray()
+    i = 0
+    while i < len(body):
+        if body[i] != 0:
+            out.append(body[i])
+            i += 1
+            continue
+        j = i
+        while j < len(body) and body[j] == 0:
+            j += 1
+        n = j - i
+        out += b"\x00\xff" * (n // 255)
+        if n % 255:
+            out += bytes([0, n % 255])
+        i = j
+    return bytes(out)
+
+
 def bounded_passthrough(reg, tier, seed):
     from hippolyzer.lib.base.message.udpdeserializer import UDPMessageDeserializer
     from contracts.C03 import n_CS
@@ -196,6 +217,16 @@ def bounded_passthrough(reg, tier, seed):
             continue
         variants = [("as-encoded", base)]
         body_end = len(base) - (1 + 4 * base[-1] if base[0] & 0x10 else 0)
+        if m.zerocoded:
+            # what a peer puts on the wire for this message: the canonical zero-coding of the plain body, whether or not it is
+            # shorter than the plain body (built without the library's serializer deciding anything about zero-coding)
+            try:
+                m.send_flags = m.send_flags & ~0x80
+                plain = ser.serialize(m)
+                pe = len(plain) - (1 + 4 * plain[-1] if plain[0] & 0x10 else 0)
+                variants.append(("as-a-peer-encodes-it", bytes([plain[0] | 0x80]) + plain[1:6] + _ref_zero_code(plain[6:pe]) + plain[pe:]))
+            except Exception:  # noqa
+                pass
         if base[0] & 0x80:
             exp = bytes(UDPMessageDeserializer.zero_code_expand(base[6:body_end]))
             variants.append(("non-canonical-zerocode", base[:6] + _noncanonical_zerocode(exp, rng) + base[body_end:]))
@@ -214,7 +245,7 @@ def bounded_passthrough(reg, tier, seed):
             if data[0] & 0x80:
                 be = len(data) - (1 + 4 * data[-1] if data[0] & 0x10 else 0)
                 try:
-                    canonical = bytes(ser.zero_code_compress(bytes(UDPMessageDeserializer.zero_code_expand(data[6:be])))) == data[6:be]
+                    canonical = _ref_zero_code(bytes(UDPMessageDeserializer.zero_code_expand(data[6:be]))) == data[6:be]
                 except ValueError:
                     canonical = False
             try:
@@ -237,7 +268,7 @@ def bounded_passthrough(reg, tier, seed):
                 except Exception as e:  # noqa
                     fail(f"{vname}/{order}: re-encoding raised {type(e).__name__}: {e}", inp)
                     continue
-                lossless_variant = vname in ("as-encoded", "non-canonical-zerocode")
+                lossless_variant = vname in ("as-encoded", "non-canonical-zerocode", "as-a-peer-encodes-it")
                 if order in ("never", "header", "failing_blocks"):
                     if out != data:
                         fail(f"{vname}/{order}: body never (successfully) parsed but re-encoding is not byte-identical", inp)
